@@ -26,6 +26,9 @@ def specs(ck, n, prop, configs):
         {"name": f"vfsrc_{prop.lower()}_pin_typing_{ck.seed}", "seed": f"{prop}:pin:3", "style": "aliased-module", "configs": configs, "cli": False, "force": ["typing", "settings"]},
         {"name": f"vfsrc_{prop.lower()}_pin_star_{ck.seed}", "seed": f"{prop}:pin:4", "style": "mixed", "configs": configs, "cli": False},
     ]
+    # a star import that is not part of the leading import block (a statement precedes it) while a class it provides is traced
+    pins.append({"name": f"vfsrc_{prop.lower()}_pin_latestar_{ck.seed}", "seed": f"{prop}:pin:9", "style": "mixed", "configs": configs, "cli": prop == "C16",
+                 "cli_confine": True, "force": ["existing-type-checking-block", "none-default"]})
     verbose = ("import typing\n\n\ndef total(values: typing.Optional[typing.Union[typing.List[int], typing.Tuple[int, ...]]] = None, "
                "start: typing.Optional[typing.Union[int, float, complex]] = 0) -> typing.Optional[typing.Union[int, float, complex]]:\n"
                "    return sum(values or []) + start\n\n\ndef label(n: typing.Union[int, str, bytes, None] = 1) -> typing.Union[str, bytes, None]:\n"
